@@ -116,6 +116,22 @@ pub fn run_program(p: &Program, hook: Hook, private_vec: bool) -> Obs {
     obs
 }
 
+/// accepts at most `chunk` bytes per write call
+pub struct ChunkSink {
+    pub buf: Arc<Mutex<Vec<u8>>>,
+    pub chunk: usize,
+}
+impl Write for ChunkSink {
+    fn write(&mut self, b: &[u8]) -> io::Result<usize> {
+        let n = b.len().min(self.chunk);
+        self.buf.lock().unwrap().extend_from_slice(&b[..n]);
+        Ok(n)
+    }
+    fn flush(&mut self) -> io::Result<()> {
+        Ok(())
+    }
+}
+
 pub trait WriteSend: Write + Send {}
 impl<T: Write + Send> WriteSend for T {}
 
@@ -462,6 +478,12 @@ fn paths_for(cfg: &Cfg, ops: &[Op], order: (u64, u64), t: &mut Tally) {
         let r = run_on(builder(cfg, bw), ops, &Op::FinishInPlace);
         // BufWriter flushes on drop (run_on drops the muxer)
         variants.push(("sink:BufWriter(7)", (r, shared2.lock().unwrap().clone())));
+        // sinks that legally accept only part of each buffer (pipes, sockets, rate limiters)
+        for chunk in [1usize, 5] {
+            let shared3 = Arc::new(Mutex::new(Vec::new()));
+            let r = run_on(builder(cfg, ChunkSink { buf: shared3.clone(), chunk }), ops, &Op::FinishInPlace);
+            variants.push((if chunk == 1 { "sink:1-byte-per-write" } else { "sink:5-bytes-per-write" }, (r, shared3.lock().unwrap().clone())));
+        }
     }
     // built on this thread, written to halfway, moved to another thread, finished there
     {
@@ -680,7 +702,7 @@ pub fn check(ctx: &Ctx) -> i32 {
         &tally,
         Meta {
             level: "model_checking",
-            rule: "thread schedules: real OS threads run under a baton scheduler with scheduling points before every public call, inside every sink write and around every invariant-log call; all schedules up to the stated preemption bound are enumerated by stateless DFS (counts in 'counters'), each program's results, output bytes and thread-local invariant log must equal its solo run, and replaying a schedule must reproduce its record; 4 threads: every order of whole programs; 8 and 16 threads: round-robin. Same thread: every interleaving at call granularity of every ordered pair of 4 programs on one thread. Equivalent paths: for every history of a bounded accepted-only set x 20 configurations, the output of a reference run is compared byte-for-byte with a second instance, the four other finish entry points, the builder aliases, audio codec None, four sink types, and a muxer moved to another thread halfway; encode_video/encode_audio vs explicit writes at exactly computed ticks for duration patterns up to the long run. Wall clock: the same digest of outputs under an LD_PRELOAD clock offset of 0 and +10 years (child processes). The auto-trait implication (Muxer<W>: Send for every W: Send; Sync likewise) is a generic function in this harness: it is the compiler's verdict, a build failure of the harness otherwise.".into(),
+            rule: "thread schedules: real OS threads run under a baton scheduler with scheduling points before every public call, inside every sink write and around every invariant-log call; all schedules up to the stated preemption bound are enumerated by stateless DFS (counts in 'counters'), each program's results, output bytes and thread-local invariant log must equal its solo run, and replaying a schedule must reproduce its record; 4 threads: every order of whole programs; 8 and 16 threads: round-robin. Same thread: every interleaving at call granularity of every ordered pair of 4 programs on one thread. Equivalent paths: for every history of a bounded accepted-only set x 20 configurations, the output of a reference run is compared byte-for-byte with a second instance, the four other finish entry points, the builder aliases, audio codec None, six sink types (incl. sinks accepting 1 or 5 bytes per write), and a muxer moved to another thread halfway; encode_video/encode_audio vs explicit writes at exactly computed ticks for duration patterns up to the long run. Wall clock: the same digest of outputs under an LD_PRELOAD clock offset of 0 and +10 years (child processes). The auto-trait implication (Muxer<W>: Send for every W: Send; Sync likewise) is a generic function in this harness: it is the compiler's verdict, a build failure of the harness otherwise.".into(),
             bound: format!("preemption bounds as listed per setup in counters; thorough={}", ctx.thorough),
             exhaustive: true,
             assumptions: vec![
